@@ -238,7 +238,7 @@ def judge(chk, pairs, work, tag):
     out, events, keys, pyfiles = {}, [], [], []
     refused = chk.extra.setdefault("inputs_refused_by_typeshare", {})
     for (lang, c), job, r in zip(pairs, jobs, results):
-        if r["status"] in ("panic", "abort"):
+        if r["status"] in ("panic", "abort", "hang"):
             continue          # C07
         if r["status"] != "ok":
             msg = str(r.get("errors"))[:160]
